@@ -257,7 +257,17 @@ def oracle(case):
             c = ds.roc(**{rate: r})
             if not (np.allclose(c.fnr, st.norm.cdf(c.thresholds, ds.mu_pos, ds.sigma_pos)) and np.allclose(c.fpr, st.norm.sf(c.thresholds, ds.mu_neg, ds.sigma_neg)) and np.allclose(getattr(c, rate), r)):
                 return f"roc({rate}=...) rates inconsistent with its thresholds {info}"
+        # far tails: the analytic rates and thresholds stay mutually inverse (relative accuracy)
+        rt = np.array([1e-15, 1e-12, 1e-9])
+        for rate in ("fnr", "fpr"):
+            back = getattr(ds, rate)(getattr(ds, "threshold_at_" + rate)(rt))
+            if not np.allclose(back, rt, rtol=1e-6, atol=0):
+                return f"{rate}(threshold_at_{rate}(r)) = {np.asarray(back).tolist()} for tail rates r = {rt.tolist()} {info}"
         np_rng = np.random.default_rng(case["seed"])
+        for pp_, want in ((0.0, 0), (1.0, case["n"])):
+            s0 = ds.sample(case["n"], p_pos=pp_, rng=np_rng)
+            if len(s0.pos) != want or len(s0.pos) + len(s0.neg) != case["n"]:
+                return f"sample(n={case['n']}, p_pos={pp_}): {len(s0.pos)} positives and {len(s0.neg)} negatives {info}"
         s = ds.sample(case["n"], p_pos=0.3, rng=np_rng)
         if len(s.pos) + len(s.neg) != case["n"] or s.score_class.value != case["sc"]:
             return f"sample(): sizes {len(s.pos)}+{len(s.neg)} != n or direction lost {info}"
